@@ -533,6 +533,13 @@ prc[main] : lin 1 = z : lin 1 <- new (send srv<a, self>); wait z; print fin; clo
 prc[srv] : F = <x, y> <- recv self; wait x; z : lin 1 <- new (close self); wait z; print served; close y
 prc[a] : lin 1 = close self
 prc[main] : lin 1 = z : lin 1 <- new (send srv<a, self>); wait z; print fin; close self`},
+	{name: "m48", contraction: false,
+		prints: []string{"dn", "fin"},
+		before: [][2]string{{"dn", "fin"}},
+		src: `prc[a] : lin 1 = x <- shift f; wait x; print fin; close self
+prc[f] : rep \/ lin 1 = fwd self b
+prc[b] : rep \/ lin 1 = print dn; cast self<c>
+prc[c] : rep 1 = close self`},
 }
 
 func orderRespected(prints []string, before [][2]string) bool {
@@ -704,6 +711,9 @@ prc[a] : lin 1 = close self
 prc[b] : lin 1 = close self
 prc[c] : T = f(a, b)
 prc[d] : lin 1 = r : lin 1 * 1 <- new (c.l<self>); <p, q> <- recv r; wait p; wait q; print fin; close self`},
+	{"y12", "C05: a cut re-binds a name that is still unused (the old channel would be lost and its provider left stuck)", `type F = lin 1 -* 1
+prc[w] : F = <u, v> <- recv self; wait u; close v
+prc[b] : lin 1 = x : F <- new (fwd self w); x : lin 1 <- new (close self); wait x; close self`},
 }
 
 // ZZRunIllTyped: every program of illTypedMenu is rejected; if one is accepted it is run (in the
@@ -717,6 +727,7 @@ func ZZRunIllTyped() {
 	}
 	vn.Assert("C07.ill-typed-program-is-rejected", r.TypeErr)
 	vn.Assert("C01.accepted-program-runs-safely", r.TypeErr || (r.Terminated && r.LiveAny == 0))
+	vn.Assert("C02.accepted-program-leaves-nothing-stuck", r.TypeErr || (r.Terminated && r.LiveAny == 0))
 	vn.Observe("rejected", r.TypeErr)
 }
 
